@@ -25,15 +25,15 @@ theorem stepBy2_odds : ∀ s : Bytes, stepByAux 2 0 (s.drop 1) = odds s
     | nil => rfl
     | cons c r => simp only [List.drop_succ_cons, List.drop_zero, stepByAux, odds] at ih ⊢; rw [ih]
 
-theorem evens_length : ∀ s : Bytes, (evens s).length = (s.length + 1) / 2
+theorem ilv_evens_length : ∀ s : Bytes, (evens s).length = (s.length + 1) / 2
   | [] => rfl
   | [_] => by simp [evens]
-  | a :: b :: r => by simp only [evens, List.length_cons, evens_length r]; omega
+  | a :: b :: r => by simp only [evens, List.length_cons, ilv_evens_length r]; omega
 
-theorem odds_length : ∀ s : Bytes, (odds s).length = s.length / 2
+theorem ilv_odds_length : ∀ s : Bytes, (odds s).length = s.length / 2
   | [] => rfl
   | [_] => by simp [odds]
-  | a :: b :: r => by simp only [odds, List.length_cons, odds_length r]; omega
+  | a :: b :: r => by simp only [odds, List.length_cons, ilv_odds_length r]; omega
 
 /-- the fill loop writes its elements one after the other behind what is already there, or panics when they do not fit -/
 theorem fillFrom_spec (st : Src) (hst : ∀ x, st.eval x = x) : ∀ (xs pre suf : Bytes),
@@ -112,8 +112,8 @@ theorem ilv_run_eq_of (p : IlvProg) (h0 : p.unsupported = none) (hsha : p.sha1On
     have hF := fillLoop_run p.f hf1 hf2 hf4 hf5 s
     rw [he3, List.drop_zero, stepBy2_evens] at hE
     rw [hf3, stepBy2_odds] at hF
-    have hle := evens_length s
-    have hlo := odds_length s
+    have hle := ilv_evens_length s
+    have hlo := ilv_odds_length s
     simp only [hE, hF, fillArr]
     by_cases hfit : (evens s).length ≤ 16
     · have hfit2 : (odds s).length ≤ 16 := by omega
